@@ -75,6 +75,7 @@ err_t beltSDEEncr(void* dest, const void* src, size_t count,
 	const octet key[], size_t len, const octet iv[16])
 {
 	void* state;
+	octet iv1[16];
 	// проверить входные данные
 	if (count % 16 != 0 || count < 32 ||
 		len != 16 && len != 24 && len != 32 ||
@@ -89,8 +90,9 @@ err_t beltSDEEncr(void* dest, const void* src, size_t count,
 		return ERR_OUTOFMEMORY;
 	// зашифровать
 	beltSDEStart(state, key, len);
+	memCopy(iv1, iv, 16);
 	memMove(dest, src, count);
-	beltSDEStepE(dest, count, iv, state);
+	beltSDEStepE(dest, count, iv1, state);
 	// завершить
 	blobClose(state);
 	return ERR_OK;
@@ -100,6 +102,7 @@ err_t beltSDEDecr(void* dest, const void* src, size_t count,
 	const octet key[], size_t len, const octet iv[16])
 {
 	void* state;
+	octet iv1[16];
 	// проверить входные данные
 	if (count % 16 != 0 || count < 32 ||
 		len != 16 && len != 24 && len != 32 ||
@@ -114,8 +117,9 @@ err_t beltSDEDecr(void* dest, const void* src, size_t count,
 		return ERR_OUTOFMEMORY;
 	// расшифровать
 	beltSDEStart(state, key, len);
+	memCopy(iv1, iv, 16);
 	memMove(dest, src, count);
-	beltSDEStepD(dest, count, iv, state);
+	beltSDEStepD(dest, count, iv1, state);
 	// завершить
 	blobClose(state);
 	return ERR_OK;
